@@ -43,6 +43,8 @@ var urlClasses = []string{
 	"HTTP://EXAMPLE.COM/Story/View/2",
 	"https://example.com/story/view/2#frag",
 	"https://example.com",
+	"https://example.com/story/view?tag=go&pg=2",
+	"https://example.com/story/view?pg=2&pg=3&tag=web",
 }
 
 type callStep struct {
